@@ -1,6 +1,1326 @@
-//! C15 — not implemented yet.
-use crate::report::{Cfg, Report};
+//! C15 — shape operations and constructors preserve data and the matrix invariant (DESIGN §3 C15).
+//!
+//! Events: the state of a `Matrix` (public fields) after every structural operation of a random
+//! program, every value such an operation returns, every panic; the output of every constructor;
+//! the answer of every structural predicate and approximate-equality comparison.
+//! Oracle: a `Vec<Vec<f64>>` row-major model run in lock-step (shape, every element bitwise, and
+//! `nrows*ncols == data.len()` after every step; the model decides when a panic is required);
+//! closed-form patterns for the constructors; definitions for predicates and comparisons.
+//! Once the library has produced a wrong state the library matrix is rebuilt from the model, so
+//! one defect never cascades into assertions about later, unrelated operations.
+use crate::gen::Rng;
+use crate::oracle::dd::Dd;
+use crate::report::{guard, jf, jnum, par_cases, Cfg, Report};
+use compute::linalg::{
+    arange, col_to_row_major, design, diag, diag_matrix, is_design, is_matrix, is_square, is_symmetric, linspace, rotation_matrix_ccw, rotation_matrix_cw, row_to_col_major, toeplitz,
+    transpose, vandermonde, Axis, Matrix, Vector,
+};
+use serde_json::{json, Value};
 
-pub fn run(_cfg: &Cfg, rep: &mut Report) {
-    rep.inconclusive("monitor for C15 not implemented".to_string());
+// ---------------------------------------------------------------------------------------------
+// per-case tally (a `Report` map operation costs ~10 ms under Miri; counts are kept in a flat
+// table keyed by the addresses of the literal assertion / regime names and flushed once per case)
+
+fn same(a: &'static str, b: &'static str) -> bool {
+    a.as_ptr() == b.as_ptr() && a.len() == b.len()
+}
+
+const SLOTS: usize = 1024;
+
+fn slot_of(a: &'static str, b: &'static str) -> usize {
+    ((a.as_ptr() as usize).wrapping_mul(31) ^ (b.as_ptr() as usize).wrapping_mul(17) ^ (b.len() << 3)) & (SLOTS - 1)
+}
+
+struct Tally {
+    /// open-addressing tables keyed by the addresses of the literal names
+    case_slots: Vec<u16>,
+    check_slots: Vec<u16>,
+    cases: Vec<(&'static str, u64)>,
+    checks: Vec<(&'static str, &'static str, u64, u64, Option<Value>)>,
+    worst: Vec<(&'static str, f64)>,
+    distinct: Vec<(u64, bool)>,
+    samples: Vec<Value>,
+    lean: bool,
+}
+impl Tally {
+    fn new(lean: bool) -> Self {
+        Tally { case_slots: vec![u16::MAX; SLOTS], check_slots: vec![u16::MAX; SLOTS], cases: Vec::new(), checks: Vec::new(), worst: Vec::new(), distinct: Vec::new(), samples: Vec::new(), lean }
+    }
+    fn case(&mut self, regime: &'static str) {
+        let mut s = slot_of(regime, regime);
+        loop {
+            let k = self.case_slots[s];
+            if k == u16::MAX {
+                self.case_slots[s] = self.cases.len() as u16;
+                self.cases.push((regime, 1));
+                return;
+            }
+            if same(self.cases[k as usize].0, regime) {
+                self.cases[k as usize].1 += 1;
+                return;
+            }
+            s = (s + 1) & (SLOTS - 1);
+        }
+    }
+    fn check(&mut self, id: &'static str, regime: &'static str, ok: bool, detail: &dyn Fn() -> Value) -> bool {
+        let mut s = slot_of(id, regime);
+        let pos = loop {
+            let k = self.check_slots[s];
+            if k == u16::MAX {
+                self.check_slots[s] = self.checks.len() as u16;
+                self.checks.push((id, regime, 0, 0, None));
+                break self.checks.len() - 1;
+            }
+            let c = &self.checks[k as usize];
+            if same(c.0, id) && same(c.1, regime) {
+                break k as usize;
+            }
+            s = (s + 1) & (SLOTS - 1);
+        };
+        let c = &mut self.checks[pos];
+        c.2 += 1;
+        if !ok {
+            c.3 += 1;
+            if c.4.is_none() {
+                c.4 = Some(detail());
+            }
+        }
+        ok
+    }
+    fn note_max(&mut self, key: &'static str, v: f64) {
+        for w in self.worst.iter_mut() {
+            if same(w.0, key) {
+                if v > w.1 {
+                    w.1 = v;
+                }
+                return;
+            }
+        }
+        self.worst.push((key, v));
+    }
+    fn flush(self, rep: &mut Report) {
+        for (regime, n) in self.cases {
+            rep.evaluations += n;
+            rep.seen(regime, n);
+        }
+        for (id, regime, checked, failed, first) in self.checks {
+            let (mut dc, mut df) = (checked, failed);
+            if failed > 0 {
+                // one real `check` call creates / bumps the violation record with the replay detail
+                let d = first.unwrap_or(Value::Null);
+                rep.check(id, regime, false, || d);
+                dc -= 1;
+                df -= 1;
+                if df > 0 {
+                    if let Some(v) = rep.violations.get_mut(&format!("{}|{}", id, regime)) {
+                        v.count += df;
+                    }
+                }
+            }
+            let st = rep.assert_stat(id);
+            st.checked += dc;
+            st.failed += df;
+        }
+        for (k, v) in self.worst {
+            rep.note_max(k, v);
+        }
+        for (h, nt) in self.distinct {
+            rep.distinct(h, nt);
+        }
+        for s in self.samples {
+            rep.sample(|| s);
+        }
+    }
+}
+
+macro_rules! id {
+    ($op:literal, $aspect:literal) => {
+        concat!("C15.", $op, ".", $aspect)
+    };
+}
+
+fn bits_eq(a: &[f64], b: &[f64]) -> bool {
+    a.len() == b.len() && a.iter().zip(b).all(|(x, y)| x.to_bits() == y.to_bits())
+}
+
+// ---------------------------------------------------------------------------------------------
+// the reference model: rows of a row-major matrix, r >= 1, c >= 1
+
+type Model = Vec<Vec<f64>>;
+
+fn flat(m: &Model) -> Vec<f64> {
+    m.iter().flat_map(|r| r.iter().copied()).collect()
+}
+fn unflat(d: &[f64], r: usize, c: usize) -> Model {
+    assert_eq!(d.len(), r * c);
+    (0..r).map(|i| d[i * c..(i + 1) * c].to_vec()).collect()
+}
+fn mt(m: &Model) -> Model {
+    let (r, c) = (m.len(), m[0].len());
+    (0..c).map(|j| (0..r).map(|i| m[i][j]).collect()).collect()
+}
+fn fresh(r: usize, c: usize, next: &mut f64) -> Model {
+    (0..r)
+        .map(|_| {
+            (0..c)
+                .map(|_| {
+                    *next += 1.0;
+                    *next + 0.25
+                })
+                .collect()
+        })
+        .collect()
+}
+fn build(m: &Model) -> Matrix {
+    Matrix::new(flat(m), m.len() as i32, m[0].len() as i32)
+}
+fn state_ok(lib: &Matrix, m: &Model) -> bool {
+    let (r, c) = (m.len(), m[0].len());
+    if lib.nrows != r || lib.ncols != c || lib.data.len() != r * c {
+        return false;
+    }
+    let mut k = 0;
+    for row in m {
+        for &x in row {
+            if lib.data[k].to_bits() != x.to_bits() {
+                return false;
+            }
+            k += 1;
+        }
+    }
+    true
+}
+fn jmodel(m: &Model) -> Value {
+    json!({"shape": [m.len(), m[0].len()], "data": jf(&flat(m))})
+}
+fn jlib(l: &Matrix) -> Value {
+    json!({"nrows": l.nrows, "ncols": l.ncols, "data_len": l.data.len(), "data": jf(&l.data)})
+}
+
+/// What a step did, for the program hash and the non-triviality rule.
+struct StepInfo {
+    code: u64,
+    shape_changing: bool,
+}
+
+/// A value-returning operation whose result becomes the current matrix. `new_model` is the
+/// expected state. On any anomaly the library matrix is rebuilt from the model.
+fn adopt(t: &mut Tally, ids: [&'static str; 2], regime: &'static str, got: Result<Matrix, String>, lib: &mut Matrix, before: &Model, new_model: &Model, what: &dyn Fn() -> Value) {
+    match got {
+        Err(msg) => {
+            t.check(ids[0], regime, false, &|| json!({"op": what(), "before": jmodel(before), "observed": {"panic": msg}, "expected": jmodel(new_model)}));
+            *lib = build(new_model);
+        }
+        Ok(m) => {
+            t.check(ids[0], regime, true, &|| Value::Null);
+            let inv = m.nrows * m.ncols == m.data.len();
+            t.check("C15.invariant", regime, inv, &|| json!({"op": what(), "before": jmodel(before), "observed": jlib(&m)}));
+            let ok = state_ok(&m, new_model);
+            t.check(ids[1], regime, ok, &|| json!({"op": what(), "before": jmodel(before), "observed": jlib(&m), "expected": jmodel(new_model)}));
+            *lib = if ok { m } else { build(new_model) };
+        }
+    }
+}
+
+/// An in-place operation already executed on `lib` inside `guard`.
+fn after_mut(t: &mut Tally, ids: [&'static str; 2], regime: &'static str, got: Result<(), String>, lib: &mut Matrix, before: &Model, new_model: &Model, what: &dyn Fn() -> Value) {
+    match got {
+        Err(msg) => {
+            t.check(ids[0], regime, false, &|| json!({"op": what(), "before": jmodel(before), "observed": {"panic": msg}, "expected": jmodel(new_model)}));
+            *lib = build(new_model);
+        }
+        Ok(()) => {
+            t.check(ids[0], regime, true, &|| Value::Null);
+            let inv = lib.nrows * lib.ncols == lib.data.len();
+            t.check("C15.invariant", regime, inv, &|| json!({"op": what(), "before": jmodel(before), "observed": jlib(lib)}));
+            let ok = state_ok(lib, new_model);
+            t.check(ids[1], regime, ok, &|| json!({"op": what(), "before": jmodel(before), "observed": jlib(lib), "expected": jmodel(new_model)}));
+            if !ok {
+                *lib = build(new_model);
+            }
+        }
+    }
+}
+
+/// An operation the model declares impossible: it must panic. The library matrix is rebuilt
+/// afterwards in every case (an accepted impossible shape leaves a corrupt header behind).
+fn must_reject(t: &mut Tally, id: &'static str, regime: &'static str, observed: Result<Value, String>, lib: &mut Matrix, model: &Model, what: &dyn Fn() -> Value) {
+    t.check(id, regime, observed.is_err(), &|| json!({"op": what(), "before": jmodel(model), "observed": observed.as_ref().ok(), "expected": "panic"}));
+    *lib = build(model);
+}
+
+/// A query that returns a flat value.
+fn query(t: &mut Tally, ids: [&'static str; 2], regime: &'static str, got: Result<Vec<f64>, String>, expect: &[f64], model: &Model, what: &dyn Fn() -> Value) {
+    match got {
+        Err(msg) => {
+            t.check(ids[0], regime, false, &|| json!({"op": what(), "matrix": jmodel(model), "observed": {"panic": msg}, "expected": jf(expect)}));
+        }
+        Ok(v) => {
+            t.check(ids[0], regime, true, &|| Value::Null);
+            t.check(ids[1], regime, bits_eq(&v, expect), &|| json!({"op": what(), "matrix": jmodel(model), "observed": jf(&v), "expected": jf(expect)}));
+        }
+    }
+}
+
+/// Pick (nrows, ncols) arguments for a reshape of `size` elements.
+/// class 0 = explicit valid, 1 = inferred dividing, 2 = inferred non-dividing, 3 = explicit mismatch, 4 = invalid arguments
+fn reshape_args(rng: &mut Rng, size: usize, class: usize) -> Option<(i32, i32)> {
+    let divisors: Vec<usize> = (1..=size).filter(|d| size % d == 0).collect();
+    let nondiv: Vec<usize> = (2..=size + 2).filter(|d| size % d != 0).collect();
+    match class {
+        0 => {
+            let d = *rng.choose(&divisors);
+            Some((d as i32, (size / d) as i32))
+        }
+        1 => {
+            let d = *rng.choose(&divisors) as i32;
+            Some(if rng.bool() { (-1, d) } else { (d, -1) })
+        }
+        2 => {
+            let d = *rng.choose(&nondiv) as i32;
+            Some(if rng.bool() { (-1, d) } else { (d, -1) })
+        }
+        3 => {
+            let (a, b) = (rng.usize(1, 9), rng.usize(1, 9));
+            if a * b == size {
+                Some((a as i32, b as i32 + 1))
+            } else {
+                Some((a as i32, b as i32))
+            }
+        }
+        _ => Some(*rng.choose(&[(0, 3), (3, 0), (0, 0), (-1, -1), (-2, 2), (2, -2), (-1, 0), (0, -1), (-3, -1)])),
+    }
+}
+
+const GROW_MAX: usize = 8;
+
+/// One random structural operation applied to the library matrix and the model in lock-step.
+fn step(t: &mut Tally, rng: &mut Rng, lib: &mut Matrix, model: &mut Model, next: &mut f64) -> StepInfo {
+    let (r, c) = (model.len(), model[0].len());
+    let size = r * c;
+    let kind = rng.usize(0, 29);
+    let oob = rng.chance(0.15);
+    macro_rules! done {
+        ($code:expr, $sc:expr) => {
+            return StepInfo { code: $code as u64, shape_changing: $sc }
+        };
+    }
+    match kind {
+        0 => {
+            let regime = "t";
+            t.case(regime);
+            let nm = mt(model);
+            let got = guard(|| lib.t());
+            adopt(t, [id!("t", "no_panic"), id!("t", "state")], regime, got, lib, &*model, &nm, &|| json!("t()"));
+            *model = nm;
+            done!(0, r != c);
+        }
+        1 => {
+            let regime = "t_mut";
+            t.case(regime);
+            let nm = mt(model);
+            let got = guard(|| {
+                lib.t_mut();
+            });
+            after_mut(t, [id!("t_mut", "no_panic"), id!("t_mut", "state")], regime, got, lib, &*model, &nm, &|| json!("t_mut()"));
+            *model = nm;
+            done!(1, r != c);
+        }
+        2 | 3 | 6 => {
+            // reshape (value-returning)
+            let class = match kind {
+                2 => 0,
+                3 => {
+                    if rng.chance(0.25) {
+                        2
+                    } else {
+                        1
+                    }
+                }
+                _ => 3 + rng.usize(0, 1),
+            };
+            let (a, b) = reshape_args(rng, size, class).unwrap();
+            let what = || json!(format!("reshape({}, {})", a, b));
+            match class {
+                0 | 1 => {
+                    let regime = if class == 0 { "reshape:explicit" } else { "reshape:infer-dividing" };
+                    t.case(regime);
+                    let (nr, nc) = if a == -1 { (size / b as usize, b as usize) } else if b == -1 { (a as usize, size / a as usize) } else { (a as usize, b as usize) };
+                    let nm = unflat(&flat(model), nr, nc);
+                    let got = guard(|| lib.reshape(a, b));
+                    adopt(t, [id!("reshape", "no_panic"), id!("reshape", "state")], regime, got, lib, &*model, &nm, &what);
+                    *model = nm;
+                    done!(10 + class, (nr, nc) != (r, c));
+                }
+                _ => {
+                    let regime = match class {
+                        2 => "reshape:infer-nondividing",
+                        3 => "reshape:explicit-mismatch",
+                        _ => "reshape:invalid-args",
+                    };
+                    t.case(regime);
+                    let got = guard(|| jlib(&lib.reshape(a, b)));
+                    must_reject(t, id!("reshape", "rejects"), regime, got, lib, model, &what);
+                    done!(10 + class, false);
+                }
+            }
+        }
+        4 | 5 | 7 => {
+            // reshape_mut
+            let class = match kind {
+                4 => 0,
+                5 => {
+                    if rng.chance(0.25) {
+                        2
+                    } else {
+                        1
+                    }
+                }
+                _ => 3 + rng.usize(0, 1),
+            };
+            let (a, b) = reshape_args(rng, size, class).unwrap();
+            let what = || json!(format!("reshape_mut({}, {})", a, b));
+            match class {
+                0 | 1 => {
+                    let regime = if class == 0 { "reshape_mut:explicit" } else { "reshape_mut:infer-dividing" };
+                    t.case(regime);
+                    let (nr, nc) = if a == -1 { (size / b as usize, b as usize) } else if b == -1 { (a as usize, size / a as usize) } else { (a as usize, b as usize) };
+                    let nm = unflat(&flat(model), nr, nc);
+                    let got = guard(|| {
+                        lib.reshape_mut(a, b);
+                    });
+                    after_mut(t, [id!("reshape_mut", "no_panic"), id!("reshape_mut", "state")], regime, got, lib, &*model, &nm, &what);
+                    *model = nm;
+                    done!(20 + class, (nr, nc) != (r, c));
+                }
+                _ => {
+                    let regime = match class {
+                        2 => "reshape_mut:infer-nondividing",
+                        3 => "reshape_mut:explicit-mismatch",
+                        _ => "reshape_mut:invalid-args",
+                    };
+                    t.case(regime);
+                    let got = guard(|| {
+                        lib.reshape_mut(a, b);
+                        jlib(lib)
+                    });
+                    must_reject(t, id!("reshape_mut", "rejects"), regime, got, lib, model, &what);
+                    done!(20 + class, false);
+                }
+            }
+        }
+        8 | 9 => {
+            // hcat / vcat
+            let h = kind == 8;
+            let mismatch = oob;
+            let (or, oc) = if h {
+                let oc = rng.usize(1, 3);
+                (if mismatch { r + rng.usize(1, 2) } else { r }, oc)
+            } else {
+                let or = rng.usize(1, 3);
+                (or, if mismatch { c + rng.usize(1, 2) } else { c })
+            };
+            if !mismatch && ((h && c + oc > GROW_MAX) || (!h && r + or > GROW_MAX)) {
+                // would leave the 1..8 range: fall back to a transposition
+                let regime = "t";
+                t.case(regime);
+                let nm = mt(model);
+                let got = guard(|| lib.t());
+                adopt(t, [id!("t", "no_panic"), id!("t", "state")], regime, got, lib, &*model, &nm, &|| json!("t()"));
+                *model = nm;
+                done!(0, r != c);
+            }
+            let other = fresh(or, oc, next);
+            let olib = build(&other);
+            let what = || json!({"call": if h { "hcat(other)" } else { "vcat(other)" }, "other": jmodel(&other)});
+            if mismatch {
+                let regime = if h { "hcat:mismatched" } else { "vcat:mismatched" };
+                t.case(regime);
+                let got = guard(|| jlib(&if h { lib.hcat(olib) } else { lib.vcat(olib) }));
+                must_reject(t, if h { id!("hcat", "rejects") } else { id!("vcat", "rejects") }, regime, got, lib, model, &what);
+                done!(30 + kind, false);
+            }
+            let regime = if h { "hcat:matching" } else { "vcat:matching" };
+            t.case(regime);
+            let nm: Model = if h {
+                (0..r).map(|i| model[i].iter().chain(other[i].iter()).copied().collect()).collect()
+            } else {
+                model.iter().chain(other.iter()).cloned().collect()
+            };
+            let got = guard(|| if h { lib.hcat(olib) } else { lib.vcat(olib) });
+            let ids = if h { [id!("hcat", "no_panic"), id!("hcat", "state")] } else { [id!("vcat", "no_panic"), id!("vcat", "state")] };
+            adopt(t, ids, regime, got, lib, &*model, &nm, &what);
+            *model = nm;
+            done!(30 + kind, true);
+        }
+        10 | 11 => {
+            let h = kind == 10;
+            let mut n = rng.usize(1, 3);
+            while n > 1 && ((h && c * n > GROW_MAX) || (!h && r * n > GROW_MAX)) {
+                n -= 1;
+            }
+            let regime = if h { "hrepeat" } else { "vrepeat" };
+            t.case(regime);
+            let nm: Model = if h {
+                model.iter().map(|row| (0..n).flat_map(|_| row.iter().copied()).collect()).collect()
+            } else {
+                (0..n).flat_map(|_| model.iter().cloned()).collect()
+            };
+            let got = guard(|| if h { lib.hrepeat(n) } else { lib.vrepeat(n) });
+            let ids = if h { [id!("hrepeat", "no_panic"), id!("hrepeat", "state")] } else { [id!("vrepeat", "no_panic"), id!("vrepeat", "state")] };
+            adopt(t, ids, regime, got, lib, &*model, &nm, &|| json!(format!("{}({})", regime, n)));
+            *model = nm;
+            done!(40 + kind, n > 1);
+        }
+        12 | 13 => {
+            let row = kind == 12;
+            let dim = if row { r } else { c };
+            let i = if oob { dim + rng.usize(0, 2) } else { rng.usize(0, dim - 1) };
+            let what = || json!(format!("{}({})", if row { "get_row_as_vector" } else { "get_col_as_vector" }, i));
+            if oob {
+                let regime = if row { "get_row:out-of-range" } else { "get_col:out-of-range" };
+                t.case(regime);
+                let got = guard(|| jf(&if row { lib.get_row_as_vector(i) } else { lib.get_col_as_vector(i) }));
+                must_reject(t, if row { id!("get_row", "rejects") } else { id!("get_col", "rejects") }, regime, got, lib, model, &what);
+            } else {
+                let regime = if row { "get_row:in-range" } else { "get_col:in-range" };
+                t.case(regime);
+                let exp: Vec<f64> = if row { model[i].clone() } else { model.iter().map(|rw| rw[i]).collect() };
+                let got = guard(|| if row { lib.get_row_as_vector(i).v } else { lib.get_col_as_vector(i).v });
+                let ids = if row { [id!("get_row", "no_panic"), id!("get_row", "result")] } else { [id!("get_col", "no_panic"), id!("get_col", "result")] };
+                query(t, ids, regime, got, &exp, model, &what);
+            }
+            done!(50 + kind, false);
+        }
+        14 | 15 => {
+            let row = kind == 14;
+            let dim = if row { r } else { c };
+            let i = if oob { dim + rng.usize(0, 2) } else { rng.usize(0, dim - 1) };
+            let neg = rng.bool();
+            let f = move |x: f64| if neg { -x } else { x + 4096.0 };
+            let what = || json!(format!("{}({}, {})", if row { "apply_along_row" } else { "apply_along_col" }, i, if neg { "|x| -x" } else { "|x| x + 4096" }));
+            if oob {
+                let regime = if row { "apply_row:out-of-range" } else { "apply_col:out-of-range" };
+                t.case(regime);
+                let got = guard(|| {
+                    if row {
+                        lib.apply_along_row(i, f)
+                    } else {
+                        lib.apply_along_col(i, f)
+                    }
+                    jlib(lib)
+                });
+                must_reject(t, if row { id!("apply_row", "rejects") } else { id!("apply_col", "rejects") }, regime, got, lib, model, &what);
+            } else {
+                let regime = if row { "apply_row:in-range" } else { "apply_col:in-range" };
+                t.case(regime);
+                let mut nm = model.clone();
+                if row {
+                    nm[i].iter_mut().for_each(|x| *x = f(*x));
+                } else {
+                    nm.iter_mut().for_each(|rw| rw[i] = f(rw[i]));
+                }
+                let got = guard(|| {
+                    if row {
+                        lib.apply_along_row(i, f)
+                    } else {
+                        lib.apply_along_col(i, f)
+                    }
+                });
+                let ids = if row { [id!("apply_row", "no_panic"), id!("apply_row", "state")] } else { [id!("apply_col", "no_panic"), id!("apply_col", "state")] };
+                after_mut(t, ids, regime, got, lib, &*model, &nm, &what);
+                *model = nm;
+            }
+            done!(60 + kind, false);
+        }
+        16 | 17 => {
+            let write = kind == 17;
+            let k = if oob { size + rng.usize(0, 2) } else { rng.usize(0, size - 1) };
+            *next += 1.0;
+            let val = *next + 0.5;
+            let what = || json!(if write { format!("flat_idx_replace({}, {})", k, val) } else { format!("flat_idx({})", k) });
+            if oob {
+                let regime = if write { "flat_idx_replace:out-of-range" } else { "flat_idx:out-of-range" };
+                t.case(regime);
+                let got = guard(|| {
+                    if write {
+                        lib.flat_idx_replace(k, val);
+                        jlib(lib)
+                    } else {
+                        jnum(lib.flat_idx(k))
+                    }
+                });
+                must_reject(t, if write { id!("flat_idx_replace", "rejects") } else { id!("flat_idx", "rejects") }, regime, got, lib, model, &what);
+            } else if write {
+                let regime = "flat_idx_replace:in-range";
+                t.case(regime);
+                let mut nm = model.clone();
+                nm[k / c][k % c] = val;
+                let got = guard(|| {
+                    lib.flat_idx_replace(k, val);
+                });
+                after_mut(t, [id!("flat_idx_replace", "no_panic"), id!("flat_idx_replace", "state")], regime, got, lib, &*model, &nm, &what);
+                *model = nm;
+            } else {
+                let regime = "flat_idx:in-range";
+                t.case(regime);
+                let got = guard(|| vec![lib.flat_idx(k)]);
+                query(t, [id!("flat_idx", "no_panic"), id!("flat_idx", "result")], regime, got, &[model[k / c][k % c]], model, &what);
+            }
+            done!(70 + kind, false);
+        }
+        18 | 19 => {
+            // 2-D indexing m[[i, j]]
+            let write = kind == 19;
+            let (i, j) = if oob {
+                if rng.bool() {
+                    (r + rng.usize(0, 1), rng.usize(0, c - 1))
+                } else {
+                    (rng.usize(0, r - 1), c + rng.usize(0, 1))
+                }
+            } else {
+                (rng.usize(0, r - 1), rng.usize(0, c - 1))
+            };
+            *next += 1.0;
+            let val = *next + 0.5;
+            let what = || json!(if write { format!("m[[{}, {}]] = {}", i, j, val) } else { format!("m[[{}, {}]]", i, j) });
+            if oob {
+                let regime = if write { "index2_write:out-of-range" } else { "index2:out-of-range" };
+                t.case(regime);
+                let got = guard(|| {
+                    if write {
+                        lib[[i, j]] = val;
+                        jlib(lib)
+                    } else {
+                        jnum(lib[[i, j]])
+                    }
+                });
+                must_reject(t, if write { id!("index2_write", "rejects") } else { id!("index2", "rejects") }, regime, got, lib, model, &what);
+            } else if write {
+                let regime = "index2_write:in-range";
+                t.case(regime);
+                let mut nm = model.clone();
+                nm[i][j] = val;
+                let got = guard(|| {
+                    lib[[i, j]] = val;
+                });
+                after_mut(t, [id!("index2_write", "no_panic"), id!("index2_write", "state")], regime, got, lib, &*model, &nm, &what);
+                *model = nm;
+            } else {
+                let regime = "index2:in-range";
+                t.case(regime);
+                let got = guard(|| vec![lib[[i, j]]]);
+                query(t, [id!("index2", "no_panic"), id!("index2", "result")], regime, got, &[model[i][j]], model, &what);
+            }
+            done!(80 + kind, false);
+        }
+        20 | 21 => {
+            // row indexing m[i] (slice) and m[i][j] = v
+            let write = kind == 21;
+            let i = if oob { r + rng.usize(0, 2) } else { rng.usize(0, r - 1) };
+            let j = rng.usize(0, c - 1);
+            *next += 1.0;
+            let val = *next + 0.5;
+            let what = || json!(if write { format!("m[{}][{}] = {}", i, j, val) } else { format!("m[{}]", i) });
+            if oob {
+                let regime = if write { "row_index_write:out-of-range" } else { "row_index:out-of-range" };
+                t.case(regime);
+                let got = guard(|| {
+                    if write {
+                        lib[i][j] = val;
+                        jlib(lib)
+                    } else {
+                        jf(&lib[i])
+                    }
+                });
+                must_reject(t, if write { id!("row_index_write", "rejects") } else { id!("row_index", "rejects") }, regime, got, lib, model, &what);
+            } else if write {
+                let regime = "row_index_write:in-range";
+                t.case(regime);
+                let mut nm = model.clone();
+                nm[i][j] = val;
+                let got = guard(|| {
+                    lib[i][j] = val;
+                });
+                after_mut(t, [id!("row_index_write", "no_panic"), id!("row_index_write", "state")], regime, got, lib, &*model, &nm, &what);
+                *model = nm;
+            } else {
+                let regime = "row_index:in-range";
+                t.case(regime);
+                let got = guard(|| lib[i].to_vec());
+                query(t, [id!("row_index", "no_panic"), id!("row_index", "result")], regime, got, &model[i], model, &what);
+            }
+            done!(90 + kind, false);
+        }
+        22 => {
+            // diagonal extraction: the stride is derived from min(nrows, ncols), so the three
+            // aspect classes are separate regimes
+            let regime = if r == c {
+                "diag:square"
+            } else if r > c {
+                "diag:tall"
+            } else {
+                "diag:wide"
+            };
+            t.case(regime);
+            let exp: Vec<f64> = (0..r.min(c)).map(|i| model[i][i]).collect();
+            let got = guard(|| lib.diag().v);
+            query(t, [id!("diag", "no_panic"), id!("diag", "result")], regime, got, &exp, model, &|| json!("diag()"));
+            done!(122, false);
+        }
+        23 => {
+            // Matrix -> Vector -> Matrix (1 x len)
+            let regime = "to_vec.to_matrix";
+            t.case(regime);
+            let nm = unflat(&flat(model), 1, size);
+            let got = guard(|| lib.clone().to_vec().to_matrix());
+            adopt(t, [id!("to_vec_to_matrix", "no_panic"), id!("to_vec_to_matrix", "state")], regime, got, lib, &*model, &nm, &|| json!("clone().to_vec().to_matrix()"));
+            *model = nm;
+            done!(123, r != 1);
+        }
+        24 | 29 => {
+            // Vector::reshape / Matrix::new on the flat data (both go through Matrix::new)
+            let via_vec = kind == 24;
+            let class = match rng.usize(0, 9) {
+                0..=3 => 0,
+                4..=6 => 1,
+                7 => 2,
+                8 => 3,
+                _ => 4,
+            };
+            let (a, b) = reshape_args(rng, size, class).unwrap();
+            let what = || json!(if via_vec { format!("to_vec().reshape({}, {})", a, b) } else { format!("Matrix::new(data, {}, {})", a, b) });
+            let data = flat(model);
+            match class {
+                0 | 1 => {
+                    let regime = match (via_vec, class) {
+                        (true, 0) => "vec_reshape:explicit",
+                        (true, _) => "vec_reshape:infer-dividing",
+                        (false, 0) => "new:explicit",
+                        (false, _) => "new:infer-dividing",
+                    };
+                    t.case(regime);
+                    let (nr, nc) = if a == -1 { (size / b as usize, b as usize) } else if b == -1 { (a as usize, size / a as usize) } else { (a as usize, b as usize) };
+                    let nm = unflat(&data, nr, nc);
+                    let got = guard(|| if via_vec { lib.clone().to_vec().reshape(a, b) } else { Matrix::new(data.clone(), a, b) });
+                    let ids = if via_vec { [id!("vec_reshape", "no_panic"), id!("vec_reshape", "state")] } else { [id!("new", "no_panic"), id!("new", "state")] };
+                    adopt(t, ids, regime, got, lib, &*model, &nm, &what);
+                    *model = nm;
+                    done!(130 + class + 5 * via_vec as usize, (nr, nc) != (r, c));
+                }
+                _ => {
+                    let regime = match (via_vec, class) {
+                        (true, 2) => "vec_reshape:infer-nondividing",
+                        (true, 3) => "vec_reshape:explicit-mismatch",
+                        (true, _) => "vec_reshape:invalid-args",
+                        (false, 2) => "new:infer-nondividing",
+                        (false, 3) => "new:explicit-mismatch",
+                        (false, _) => "new:invalid-args",
+                    };
+                    t.case(regime);
+                    let got = guard(|| jlib(&if via_vec { lib.clone().to_vec().reshape(a, b) } else { Matrix::new(data.clone(), a, b) }));
+                    must_reject(t, if via_vec { id!("vec_reshape", "rejects") } else { id!("new", "rejects") }, regime, got, lib, model, &what);
+                    done!(130 + class + 5 * via_vec as usize, false);
+                }
+            }
+        }
+        25 | 26 => {
+            // layout conversion: the column-major image of an r x c matrix, read row-major as c x r, is its transpose
+            let to_col = kind == 25;
+            let regime = if to_col { "row_to_col_major" } else { "col_to_row_major" };
+            t.case(regime);
+            let nm = mt(model);
+            let got = guard(|| {
+                let d: Vec<f64> = if to_col { row_to_col_major(&lib.data, r).v } else { col_to_row_major(&lib.data, c) };
+                Matrix::new(d, c as i32, r as i32)
+            });
+            let ids = if to_col { [id!("row_to_col_major", "no_panic"), id!("row_to_col_major", "state")] } else { [id!("col_to_row_major", "no_panic"), id!("col_to_row_major", "state")] };
+            adopt(t, ids, regime, got, lib, &*model, &nm, &|| json!(if to_col { "Matrix::new(row_to_col_major(data, nrows), ncols, nrows)" } else { "Matrix::new(col_to_row_major(data, ncols), ncols, nrows)" }));
+            *model = nm;
+            done!(140 + kind, r != c);
+        }
+        27 => {
+            // accessors: shape, size, is_square, data(), row iteration, clone, ==
+            let regime = "accessors";
+            t.case(regime);
+            let got = guard(|| {
+                let mut v = vec![lib.shape()[0] as f64, lib.shape()[1] as f64, lib.size() as f64, lib.is_square() as u8 as f64, lib.data().len() as f64];
+                let mut nrows_iter = 0;
+                for row in &*lib {
+                    v.push(row.len() as f64);
+                    v.extend_from_slice(row);
+                    nrows_iter += 1;
+                }
+                v.push(nrows_iter as f64);
+                let cl = lib.clone();
+                v.push((cl == *lib) as u8 as f64);
+                v.extend_from_slice(&cl.data);
+                v
+            });
+            let mut exp = vec![r as f64, c as f64, size as f64, (r == c) as u8 as f64, size as f64];
+            for row in model.iter() {
+                exp.push(c as f64);
+                exp.extend_from_slice(row);
+            }
+            exp.push(r as f64);
+            exp.push(1.0);
+            exp.extend(flat(model));
+            query(t, [id!("accessors", "no_panic"), id!("accessors", "result")], regime, got, &exp, model, &|| json!("[shape, size, is_square, data().len, rows of `for row in &m` with their lengths, row count, clone()==m, clone().data]"));
+            done!(127, false);
+        }
+        _ => {
+            // slice-level transpose
+            let regime = "transpose(slice)";
+            t.case(regime);
+            let exp = flat(&mt(model));
+            let got = guard(|| transpose(&lib.data, r));
+            query(t, [id!("transpose_slice", "no_panic"), id!("transpose_slice", "result")], regime, got, &exp, model, &|| json!("transpose(&data, nrows)"));
+            done!(128, false);
+        }
+    }
+}
+
+/// One random program of `len` operations.
+fn program(t: &mut Tally, rng: &mut Rng, len: usize) {
+    let (r, c) = (rng.usize(1, 8), rng.usize(1, 8));
+    let mut next = rng.usize(0, 50) as f64 * 64.0;
+    let mut model = fresh(r, c, &mut next);
+    let mut lib = build(&model);
+    let mut h = 0xcbf29ce484222325u64 ^ ((r * 16 + c) as u64);
+    let mut changes = 0;
+    for _ in 0..len {
+        let info = step(t, rng, &mut lib, &mut model, &mut next);
+        h = (h ^ info.code).wrapping_mul(0x100000001b3);
+        h = (h ^ (model.len() * 131 + model[0].len()) as u64).wrapping_mul(0x100000001b3);
+        changes += info.shape_changing as usize;
+    }
+    t.case("program");
+    t.distinct.push((h, changes >= 3));
+    if t.samples.is_empty() && !t.lean {
+        t.samples.push(json!({"program_len": len, "start_shape": [r, c], "end_shape": [model.len(), model[0].len()], "shape_changing_ops": changes}));
+    }
+}
+
+// ---------------------------------------------------------------------------------------------
+// constructors
+
+/// Compare a constructor's flat output (and shape, where it has one) with its defining pattern.
+fn pattern(t: &mut Tally, ids: [&'static str; 2], regime: &'static str, got: Result<(Option<[usize; 2]>, Vec<f64>), String>, shape: Option<[usize; 2]>, exp: &[f64], what: &dyn Fn() -> Value) {
+    match got {
+        Err(msg) => {
+            t.check(ids[0], regime, false, &|| json!({"call": what(), "observed": {"panic": msg}, "expected": {"shape": shape, "data": jf(exp)}}));
+        }
+        Ok((s, v)) => {
+            t.check(ids[0], regime, true, &|| Value::Null);
+            let ok = s == shape && bits_eq(&v, exp);
+            t.check(ids[1], regime, ok, &|| json!({"call": what(), "observed": {"shape": s, "len": v.len(), "data": jf(&v)}, "expected": {"shape": shape, "data": jf(exp)}}));
+        }
+    }
+}
+
+fn distinct_values(rng: &mut Rng, n: usize) -> Vec<f64> {
+    let base = rng.usize(1, 40) as f64;
+    (0..n).map(|i| (base + i as f64 + 0.375) * if (i + base as usize) % 3 == 0 { -1.0 } else { 1.0 }).collect()
+}
+
+fn axis(k: usize) -> Axis {
+    match k {
+        0 => Axis::X,
+        1 => Axis::Y,
+        _ => Axis::Z,
+    }
+}
+
+/// 3x3 product in double-double, rounded once.
+fn mul3(a: &[f64], b: &[f64]) -> Vec<f64> {
+    let mut c = vec![0.0; 9];
+    for i in 0..3 {
+        for j in 0..3 {
+            let mut s = Dd::ZERO;
+            for k in 0..3 {
+                s = s + Dd::prod(a[i * 3 + k], b[k * 3 + j]);
+            }
+            c[i * 3 + j] = s.f();
+        }
+    }
+    c
+}
+fn t3(a: &[f64]) -> Vec<f64> {
+    (0..9).map(|k| a[(k % 3) * 3 + k / 3]).collect()
+}
+fn det3(a: &[f64]) -> f64 {
+    let m = |i: usize, j: usize, k: usize, l: usize| Dd::prod(a[i], a[j]) - Dd::prod(a[k], a[l]);
+    (m(4, 8, 5, 7) * a[0] - m(3, 8, 5, 6) * a[1] + m(3, 7, 4, 6) * a[2]).f()
+}
+fn dist_identity(a: &[f64]) -> f64 {
+    (0..9).map(|k| (a[k] - if k % 4 == 0 { 1.0 } else { 0.0 }).abs()).fold(0.0, f64::max)
+}
+
+// DESIGN quotes 4 eps; the worst value seen on the unchanged tree is exactly 1 eps (one ulp of 1.0), so 16 eps
+// gives the 10x headroom rule 1 asks for while a wrong sign or a swapped sin/cos is off by O(sin theta).
+const ROT_TOL: f64 = 16.0 * f64::EPSILON;
+
+fn constructors(t: &mut Tally, rng: &mut Rng, maxn: usize) {
+    let n = rng.usize(1, maxn);
+    let (r, c) = (rng.usize(1, maxn), rng.usize(1, maxn));
+
+    // identity, zeros, ones
+    t.case("eye");
+    let exp: Vec<f64> = (0..n * n).map(|k| if k / n == k % n { 1.0 } else { 0.0 }).collect();
+    let got = guard(|| {
+        let m = Matrix::eye(n);
+        (Some([m.nrows, m.ncols]), m.data.v)
+    });
+    pattern(t, [id!("eye", "no_panic"), id!("eye", "pattern")], "eye", got, Some([n, n]), &exp, &|| json!(format!("Matrix::eye({})", n)));
+    for one in [false, true] {
+        let regime = if one { "ones" } else { "zeros" };
+        t.case(regime);
+        let got = guard(|| {
+            let m = if one { Matrix::ones(r, c) } else { Matrix::zeros(r, c) };
+            (Some([m.nrows, m.ncols]), m.data.v)
+        });
+        let ids = if one { [id!("ones", "no_panic"), id!("ones", "pattern")] } else { [id!("zeros", "no_panic"), id!("zeros", "pattern")] };
+        pattern(t, ids, regime, got, Some([r, c]), &vec![if one { 1.0 } else { 0.0 }; r * c], &|| json!(format!("Matrix::{}({}, {})", regime, r, c)));
+    }
+
+    // garbage-by-contract buffers: only the header is inspected, the contents are never read
+    t.case("with_shape");
+    let got = guard(|| {
+        let m = Matrix::with_shape(r, c);
+        [m.nrows, m.ncols, m.data.len()]
+    });
+    t.check(id!("with_shape", "header"), "with_shape", got == Ok([r, c, r * c]), &|| json!({"call": format!("Matrix::with_shape({}, {})", r, c), "observed_nrows_ncols_len": format!("{:?}", got)}));
+    t.case("empty_n");
+    let got = guard(|| Vector::empty_n(n).len());
+    t.check(id!("empty_n", "len"), "empty_n", got == Ok(n), &|| json!({"call": format!("Vector::empty_n({})", n), "observed_len": format!("{:?}", got)}));
+
+    // diagonal matrix and diagonal of a square slice
+    let a = distinct_values(rng, n);
+    t.case("diag_matrix");
+    let exp: Vec<f64> = (0..n * n).map(|k| if k / n == k % n { a[k / n] } else { 0.0 }).collect();
+    let got = guard(|| (None, diag_matrix(&a).v));
+    pattern(t, [id!("diag_matrix", "no_panic"), id!("diag_matrix", "pattern")], "diag_matrix", got, None, &exp, &|| json!({"call": "diag_matrix(a)", "a": jf(&a)}));
+    t.case("diag(slice)");
+    let sq = distinct_values(rng, n * n);
+    let exp: Vec<f64> = (0..n).map(|i| sq[i * n + i]).collect();
+    let got = guard(|| (None, diag(&sq).v));
+    pattern(t, [id!("diag_slice", "no_panic"), id!("diag_slice", "pattern")], "diag(slice)", got, None, &exp, &|| json!({"call": "diag(square slice)", "n": n}));
+
+    // Toeplitz
+    t.case("toeplitz");
+    let exp: Vec<f64> = (0..n * n).map(|k| a[(k / n).abs_diff(k % n)]).collect();
+    let got = guard(|| (None, toeplitz(&a)));
+    pattern(t, [id!("toeplitz", "no_panic"), id!("toeplitz", "pattern")], "toeplitz", got, None, &exp, &|| json!({"call": "toeplitz(x)", "x": jf(&a)}));
+
+    // Vandermonde: x_i^j
+    t.case("vandermonde");
+    let xs: Vec<f64> = (0..r).map(|_| rng.range(-2.0, 2.0)).collect();
+    let exp: Vec<f64> = xs.iter().flat_map(|&x| (0..c).map(move |j| x.powi(j as i32))).collect();
+    let got = guard(|| (None, vandermonde(&xs, c)));
+    pattern(t, [id!("vandermonde", "no_panic"), id!("vandermonde", "pattern")], "vandermonde", got, None, &exp, &|| json!({"call": format!("vandermonde(x, {})", c), "x": jf(&xs)}));
+
+    // design matrix: a column of ones, then the column-major input
+    t.case("design");
+    let k = rng.usize(1, 8.min(maxn));
+    let x = distinct_values(rng, r * k);
+    let exp: Vec<f64> = (0..r).flat_map(|i| std::iter::once(1.0).chain((0..k).map(|j| x[j * r + i])).collect::<Vec<f64>>()).collect();
+    let got = guard(|| (None, design(&x, r)));
+    pattern(t, [id!("design", "no_panic"), id!("design", "pattern")], "design", got, None, &exp, &|| json!({"call": format!("design(x, {})", r), "x": jf(&x)}));
+
+    // linspace
+    {
+        let num = match rng.usize(0, 5) {
+            0 => 1,
+            1 => 2,
+            _ => rng.usize(3, maxn.max(3)),
+        };
+        let regime = match num {
+            1 => "linspace:num=1",
+            2 => "linspace:num=2",
+            _ => "linspace:num>=3",
+        };
+        t.case(regime);
+        let start = if rng.chance(0.2) { rng.int(-5, 5) as f64 } else { rng.range(-100.0, 100.0) };
+        let span = rng.log_range(1e-3, 1e3) * if rng.bool() { 1.0 } else { -1.0 };
+        let stop = if rng.chance(0.05) { start } else { start + span };
+        let what = || json!(format!("linspace({:e}, {:e}, {})", start, stop, num));
+        match guard(|| linspace(start, stop, num).v) {
+            Err(msg) => {
+                t.check(id!("linspace", "no_panic"), regime, false, &|| json!({"call": what(), "observed": {"panic": msg}}));
+            }
+            Ok(v) => {
+                t.check(id!("linspace", "no_panic"), regime, true, &|| Value::Null);
+                let d = |what_failed: &str| json!({"call": what(), "failed": what_failed, "observed": jf(&v)});
+                if t.check(id!("linspace", "len"), regime, v.len() == num, &|| d("number of points")) {
+                    t.check(id!("linspace", "first"), regime, v[0].to_bits() == start.to_bits(), &|| d("first point is the start point"));
+                    if num >= 2 {
+                        let scale = start.abs().max(stop.abs());
+                        let tol = 4.0 * f64::EPSILON * scale;
+                        let e_last = (v[num - 1] - stop).abs();
+                        t.note_max("worst_ratio.linspace.last", e_last / tol);
+                        t.check(id!("linspace", "last"), regime, e_last <= tol, &|| d("last point is the stop point (4 eps * max(|start|,|stop|))"));
+                        let mut worst = 0.0f64;
+                        for (i, &x) in v.iter().enumerate() {
+                            let exact = Dd::new(start) + (Dd::new(stop) - Dd::new(start)) * (i as f64) / ((num - 1) as f64);
+                            worst = worst.max((Dd::new(x) - exact).f().abs());
+                        }
+                        t.note_max("worst_ratio.linspace.spacing", worst / tol);
+                        t.check(id!("linspace", "spacing"), regime, worst <= tol, &|| d("points equally spaced (4 eps * max(|start|,|stop|))"));
+                    }
+                }
+            }
+        }
+    }
+
+    // arange
+    {
+        let class = rng.usize(0, 9);
+        let start = if rng.chance(0.3) { rng.int(-5, 5) as f64 } else { rng.range(-50.0, 50.0) };
+        let step = rng.log_range(1e-3, 10.0) * if rng.chance(0.25) { -1.0 } else { 1.0 };
+        let k = rng.usize(0, maxn - 1) as f64;
+        let stop = match class {
+            0 => start - step * rng.range(0.0, 3.0),                        // empty
+            1 | 2 => start + step * (k + *rng.choose(&[0.0, 1e-9, 0.01, 0.03, 0.97, 0.99, 1.0 - 1e-9])), // near an integer ratio
+            _ => start + step * (k + rng.range(0.1, 0.9)),                  // clearly fractional ratio
+        };
+        let ratio = (Dd::new(stop) - Dd::new(start)) / Dd::new(step);
+        let rf = ratio.f();
+        let fl = rf.floor();
+        let frac = (ratio - fl).f();
+        let regime = if rf <= 0.0 {
+            "arange:empty"
+        } else if (0.05..=0.95).contains(&frac) {
+            "arange:frac∈[.05,.95]"
+        } else {
+            "arange:near-integer"
+        };
+        t.case(regime);
+        let what = || json!({"call": format!("arange({:e}, {:e}, {:e})", start, stop, step), "exact_ratio_(stop-start)/step": rf});
+        match guard(|| arange(start, stop, step).v) {
+            Err(msg) => {
+                t.check(id!("arange", "no_panic"), regime, false, &|| json!({"call": what(), "observed": {"panic": msg}}));
+            }
+            Ok(v) => {
+                t.check(id!("arange", "no_panic"), regime, true, &|| Value::Null);
+                let cnt = v.len() as f64;
+                let (count_ok, expected) = if rf <= 0.0 {
+                    (cnt == 0.0, json!(0))
+                } else if (0.05..=0.95).contains(&frac) {
+                    (cnt == fl + 1.0, json!(fl + 1.0))
+                } else {
+                    ((cnt - rf).abs() < 1.0 + 1e-9, json!(format!("{} or {}", rf.round() - 1.0, rf.round())))
+                };
+                t.check(id!("arange", "count"), regime, count_ok, &|| json!({"call": what(), "observed_count": cnt, "expected_count": expected, "observed_tail": jf(&v[v.len().saturating_sub(3)..]), "failed": "every point of [start, stop) on the grid is present"}));
+                let inside = v.iter().all(|&x| if step > 0.0 { x >= start && x < stop } else { x <= start && x > stop });
+                t.check(id!("arange", "in_range"), regime, inside, &|| json!({"call": what(), "observed": jf(&v)}));
+                let tol = 4.0 * f64::EPSILON * start.abs().max(stop.abs());
+                let mut worst = 0.0f64;
+                for (i, &x) in v.iter().enumerate() {
+                    let exact = Dd::new(start) + Dd::prod(i as f64, step);
+                    worst = worst.max((Dd::new(x) - exact).f().abs());
+                }
+                if !v.is_empty() && tol > 0.0 {
+                    t.note_max("worst_ratio.arange.spacing", worst / tol);
+                }
+                t.check(id!("arange", "spacing"), regime, worst <= tol, &|| json!({"call": what(), "observed": jf(&v), "failed": "x_i = start + i*step (4 eps * max(|start|,|stop|))"}));
+            }
+        }
+    }
+
+    // rotations
+    {
+        let theta = if rng.chance(0.15) { *rng.choose(&[0.0, 0.5, 1.0, 1.5, 2.0, -0.5, -1.0, 4.0, -4.0]) * std::f64::consts::PI } else { rng.range(-4.0, 4.0) * std::f64::consts::PI };
+        for ax in 0..3 {
+            let regime = ["rotation:X", "rotation:Y", "rotation:Z"][ax];
+            t.case(regime);
+            let got = guard(|| (rotation_matrix_cw(theta, axis(ax)), rotation_matrix_ccw(theta, axis(ax))));
+            let what = || json!(format!("rotation_matrix_cw/ccw({:e}, Axis::{})", theta, ["X", "Y", "Z"][ax]));
+            match got {
+                Err(msg) => {
+                    t.check(id!("rotation", "no_panic"), regime, false, &|| json!({"call": what(), "observed": {"panic": msg}}));
+                }
+                Ok((cw, ccw)) => {
+                    t.check(id!("rotation", "no_panic"), regime, true, &|| Value::Null);
+                    let d = || json!({"call": what(), "cw": jlib(&cw), "ccw": jlib(&ccw)});
+                    let shape_ok = cw.shape() == [3, 3] && ccw.shape() == [3, 3] && cw.data.len() == 9 && ccw.data.len() == 9;
+                    if t.check(id!("rotation", "shape"), regime, shape_ok, &d) {
+                        t.check(id!("rotation", "cw_is_ccw_t"), regime, bits_eq(&cw.data, &t3(&ccw.data)), &d);
+                        let o1 = dist_identity(&mul3(&t3(&cw.data), &cw.data));
+                        let o2 = dist_identity(&mul3(&t3(&ccw.data), &ccw.data));
+                        t.note_max("worst_ratio.rotation.orthogonal", o1.max(o2) / ROT_TOL);
+                        t.check(id!("rotation", "orthogonal"), regime, o1 <= ROT_TOL && o2 <= ROT_TOL, &d);
+                        let dd = (det3(&cw.data) - 1.0).abs().max((det3(&ccw.data) - 1.0).abs());
+                        t.note_max("worst_ratio.rotation.det", dd / ROT_TOL);
+                        t.check(id!("rotation", "det"), regime, dd <= ROT_TOL, &d);
+                        let p = dist_identity(&mul3(&cw.data, &ccw.data));
+                        t.note_max("worst_ratio.rotation.cw_ccw_identity", p / ROT_TOL);
+                        t.check(id!("rotation", "cw_ccw_identity"), regime, p <= ROT_TOL, &d);
+                    }
+                }
+            }
+        }
+    }
+}
+
+// ---------------------------------------------------------------------------------------------
+// predicates and comparisons
+
+fn answer(t: &mut Tally, ids: [&'static str; 2], regime: &'static str, got: Result<bool, String>, expect: bool, what: &dyn Fn() -> Value) {
+    match got {
+        Err(msg) => {
+            t.check(ids[0], regime, false, &|| json!({"call": what(), "observed": {"panic": msg}, "expected": expect}));
+        }
+        Ok(b) => {
+            t.check(ids[0], regime, true, &|| Value::Null);
+            t.check(ids[1], regime, b == expect, &|| json!({"call": what(), "observed": b, "expected": expect}));
+        }
+    }
+}
+
+fn predicates(t: &mut Tally, rng: &mut Rng, maxn: usize) {
+    let n = rng.usize(1, maxn);
+    // square / matrix predicates on slices
+    {
+        let len = rng.usize(1, maxn * maxn);
+        let v = vec![1.5; len];
+        let root = (1..=len).find(|k| k * k >= len).unwrap();
+        let exp = if root * root == len { Some(root) } else { None };
+        t.case("is_square(slice)");
+        let got = guard(|| is_square(&v).ok());
+        t.check(id!("is_square_slice", "answer"), "is_square(slice)", got == Ok(exp), &|| json!({"call": format!("is_square(slice of length {})", len), "observed": format!("{:?}", got), "expected": format!("{:?}", exp)}));
+        let rows = rng.usize(1, maxn);
+        let exp = if len % rows == 0 { Some(len / rows) } else { None };
+        t.case("is_matrix(slice)");
+        let got = guard(|| is_matrix(&v, rows).ok());
+        t.check(id!("is_matrix_slice", "answer"), "is_matrix(slice)", got == Ok(exp), &|| json!({"call": format!("is_matrix(slice of length {}, {})", len, rows), "observed": format!("{:?}", got), "expected": format!("{:?}", exp)}));
+        let (r, c) = (rng.usize(1, maxn), rng.usize(1, maxn));
+        t.case("is_square");
+        let got = guard(|| Matrix::zeros(r, c).is_square());
+        answer(t, [id!("is_square", "no_panic"), id!("is_square", "answer")], "is_square", got, r == c, &|| json!(format!("Matrix::zeros({}, {}).is_square()", r, c)));
+    }
+    // symmetry
+    {
+        let vals = distinct_values(rng, n * n);
+        let scale = vals.iter().fold(0.0f64, |m, x| m.max(x.abs()));
+        let mut s = vec![0.0; n * n];
+        for i in 0..n {
+            for j in 0..n {
+                s[i * n + j] = vals[i.min(j) * n + i.max(j)];
+            }
+        }
+        let ms = Matrix::new(s.clone(), n as i32, n as i32);
+        t.case("is_symmetric:positive");
+        answer(t, [id!("is_symmetric", "no_panic"), id!("is_symmetric", "answer")], "is_symmetric:positive", guard(|| ms.is_symmetric()), true, &|| json!({"call": "Matrix::is_symmetric", "n": n, "data": jf(&s)}));
+        t.case("is_symmetric(slice):positive");
+        answer(t, [id!("is_symmetric_slice", "no_panic"), id!("is_symmetric_slice", "answer")], "is_symmetric(slice):positive", guard(|| is_symmetric(&s)), true, &|| json!({"call": "is_symmetric(slice)", "n": n, "data": jf(&s)}));
+        if n >= 2 {
+            let (i, j) = (rng.usize(1, n - 1), 0);
+            let j = rng.usize(j, i - 1);
+            let mut a = s.clone();
+            a[i * n + j] += scale * rng.log_range(1e-3, 1.0);
+            let ma = Matrix::new(a.clone(), n as i32, n as i32);
+            t.case("is_symmetric:negative");
+            answer(t, [id!("is_symmetric", "no_panic"), id!("is_symmetric", "answer")], "is_symmetric:negative", guard(|| ma.is_symmetric()), false, &|| json!({"call": "Matrix::is_symmetric", "n": n, "data": jf(&a), "perturbed": [i, j]}));
+            t.case("is_symmetric(slice):negative");
+            answer(t, [id!("is_symmetric_slice", "no_panic"), id!("is_symmetric_slice", "answer")], "is_symmetric(slice):negative", guard(|| is_symmetric(&a)), false, &|| json!({"call": "is_symmetric(slice)", "n": n, "data": jf(&a), "perturbed": [i, j]}));
+        }
+        let (r, c) = (rng.usize(1, maxn), rng.usize(1, maxn));
+        if r != c {
+            let m = Matrix::new(vec![1.0; r * c], r as i32, c as i32);
+            t.case("is_symmetric:non-square");
+            answer(t, [id!("is_symmetric", "no_panic"), id!("is_symmetric", "answer")], "is_symmetric:non-square", guard(|| m.is_symmetric()), false, &|| json!(format!("Matrix::ones({}, {}).is_symmetric()", r, c)));
+        }
+    }
+    // triangular structure (definition: entries below / above the main diagonal are zero)
+    {
+        let (r, c) = if rng.chance(0.4) { (n, n) } else { (rng.usize(1, maxn), rng.usize(1, maxn)) };
+        let pat = rng.usize(0, 3); // 0 upper, 1 lower, 2 full, 3 diagonal
+        let vals = distinct_values(rng, r * c);
+        let mut a = vec![0.0; r * c];
+        for i in 0..r {
+            for j in 0..c {
+                let keep = match pat {
+                    0 => j >= i,
+                    1 => j <= i,
+                    2 => true,
+                    _ => i == j,
+                };
+                if keep {
+                    a[i * c + j] = vals[i * c + j];
+                }
+            }
+        }
+        if pat == 2 && rng.bool() {
+            // a single offending entry is enough
+            for i in 0..r {
+                for j in 0..c {
+                    if i != j {
+                        a[i * c + j] = 0.0;
+                    }
+                }
+            }
+            let (i, j) = (rng.usize(0, r - 1), rng.usize(0, c - 1));
+            a[i * c + j] = 7.5;
+        }
+        let upper = (0..r).all(|i| (0..c.min(i)).all(|j| a[i * c + j] == 0.0));
+        let lower = (0..r).all(|i| (i + 1..c).all(|j| a[i * c + j] == 0.0));
+        let m = Matrix::new(a.clone(), r as i32, c as i32);
+        let (ru, rl) = if r == c {
+            ("is_upper_triangular:square", "is_lower_triangular:square")
+        } else if r > c {
+            ("is_upper_triangular:tall", "is_lower_triangular:tall")
+        } else {
+            ("is_upper_triangular:wide", "is_lower_triangular:wide")
+        };
+        t.case(ru);
+        answer(t, [id!("is_upper_triangular", "no_panic"), id!("is_upper_triangular", "answer")], ru, guard(|| m.is_upper_triangular()), upper, &|| json!({"call": "is_upper_triangular", "shape": [r, c], "data": jf(&a)}));
+        t.case(rl);
+        answer(t, [id!("is_lower_triangular", "no_panic"), id!("is_lower_triangular", "answer")], rl, guard(|| m.is_lower_triangular()), lower, &|| json!({"call": "is_lower_triangular", "shape": [r, c], "data": jf(&a)}));
+    }
+    // design-matrix predicate
+    {
+        let (r, k) = (rng.usize(1, maxn), rng.usize(1, 8.min(maxn)));
+        let x = distinct_values(rng, r * k);
+        let good = design(&x, r);
+        t.case("is_design:positive");
+        answer(t, [id!("is_design", "no_panic"), id!("is_design", "answer")], "is_design:positive", guard(|| is_design(&good, r)), true, &|| json!({"call": format!("is_design(design(x, {}), {})", r, r), "data": jf(&good)}));
+        let mut bad = good.clone();
+        let i = rng.usize(0, r - 1);
+        bad[i * (k + 1)] = 1.0 + rng.log_range(1e-3, 10.0) * if rng.bool() { 1.0 } else { -1.0 };
+        t.case("is_design:negative");
+        answer(t, [id!("is_design", "no_panic"), id!("is_design", "answer")], "is_design:negative", guard(|| is_design(&bad, r)), false, &|| json!({"call": format!("is_design(data, {})", r), "data": jf(&bad), "row_with_non_unit_first_entry": i}));
+    }
+}
+
+fn comparisons(t: &mut Tally, rng: &mut Rng, maxn: usize) {
+    let n = rng.usize(1, maxn);
+    let tol = rng.log_range(1e-12, 1e-2);
+    // magnitudes at least 1e3 x the tolerance, both signs
+    let x: Vec<f64> = (0..n).map(|_| rng.log_range((1e3 * tol).max(1e-6), 1e6) * if rng.bool() { 1.0 } else { -1.0 }).collect();
+    let k = rng.usize(0, n - 1);
+    let classes: [(&'static str, &'static str, Vec<f64>, bool); 5] = [
+        ("close_to:identical", "mat_close_to:identical", x.clone(), true),
+        ("close_to:near", "mat_close_to:near", x.iter().map(|v| v * (1.0 + rng.range(-0.1, 0.1) * tol)).collect(), true),
+        ("close_to:far", "mat_close_to:far", x.iter().enumerate().map(|(i, v)| if i == k { v * (1.0 + 10.0 * tol) } else { *v }).collect(), false),
+        // same magnitudes, one element of opposite sign
+        ("close_to:opposite-sign", "mat_close_to:opposite-sign", x.iter().enumerate().map(|(i, v)| if i == k { -v } else { *v }).collect(), false),
+        ("close_to:length-mismatch", "mat_close_to:length-mismatch", x.iter().copied().chain(std::iter::once(1.0)).collect(), false),
+    ];
+    let vx = Vector::new(x.clone());
+    for (rv, rm, y, expect) in classes.iter() {
+        let vy = Vector::new(y.clone());
+        t.case(rv);
+        answer(t, [id!("close_to", "no_panic"), id!("close_to", "answer")], rv, guard(|| vx.close_to(&vy, tol)), *expect, &|| json!({"call": "Vector::close_to(x, y, tol)", "x": jf(&x), "y": jf(y), "tol": tol}));
+        t.case(rm);
+        let (mx, my) = (Matrix::new(x.clone(), 1, x.len() as i32), Matrix::new(y.clone(), 1, y.len() as i32));
+        answer(t, [id!("mat_close_to", "no_panic"), id!("mat_close_to", "answer")], rm, guard(|| mx.close_to(&my, tol)), *expect, &|| json!({"call": "Matrix::close_to(1 x n, 1 x n, tol)", "x": jf(&x), "y": jf(y), "tol": tol}));
+    }
+    // == (absolute difference <= f64::EPSILON per element)
+    let e: Vec<f64> = (0..n).map(|_| rng.log_range(1e3 * f64::EPSILON, 1e6) * if rng.bool() { 1.0 } else { -1.0 }).collect();
+    let eq_classes: [(&'static str, &'static str, Vec<f64>, bool); 4] = [
+        ("eq:identical", "mat_eq:identical", e.clone(), true),
+        ("eq:opposite-sign", "mat_eq:opposite-sign", e.iter().enumerate().map(|(i, v)| if i == k { -v } else { *v }).collect(), false),
+        ("eq:different", "mat_eq:different", e.iter().enumerate().map(|(i, v)| if i == k { v + v.abs().max(1.0) * 1e-3 } else { *v }).collect(), false),
+        ("eq:length-mismatch", "mat_eq:length-mismatch", e.iter().copied().chain(std::iter::once(1.0)).collect(), false),
+    ];
+    let ve = Vector::new(e.clone());
+    for (rv, rm, y, expect) in eq_classes.iter() {
+        let vy = Vector::new(y.clone());
+        t.case(rv);
+        answer(t, [id!("vec_eq", "no_panic"), id!("vec_eq", "answer")], rv, guard(|| ve == vy), *expect, &|| json!({"call": "Vector == Vector", "x": jf(&e), "y": jf(y)}));
+        t.case(rm);
+        let (mx, my) = (Matrix::new(e.clone(), e.len() as i32, 1), Matrix::new(y.clone(), y.len() as i32, 1));
+        answer(t, [id!("mat_eq", "no_panic"), id!("mat_eq", "answer")], rm, guard(|| mx == my), *expect, &|| json!({"call": "Matrix == Matrix (n x 1)", "x": jf(&e), "y": jf(y)}));
+    }
+    // same data, different shape
+    let (r, c) = (rng.usize(1, maxn), rng.usize(2, maxn.max(2)));
+    if r != c {
+        let d = distinct_values(rng, r * c);
+        let (a, b) = (Matrix::new(d.clone(), r as i32, c as i32), Matrix::new(d.clone(), c as i32, r as i32));
+        t.case("mat_eq:shape-mismatch");
+        answer(t, [id!("mat_eq", "no_panic"), id!("mat_eq", "answer")], "mat_eq:shape-mismatch", guard(|| a == b), false, &|| json!(format!("same data as {}x{} and {}x{} compared with ==", r, c, c, r)));
+        t.case("mat_close_to:shape-mismatch");
+        answer(t, [id!("mat_close_to", "no_panic"), id!("mat_close_to", "answer")], "mat_close_to:shape-mismatch", guard(|| a.close_to(&b, 1e-6)), false, &|| json!(format!("same data as {}x{} and {}x{} compared with close_to", r, c, c, r)));
+    }
+}
+
+const PROGRAM_REGIMES: [&str; 62] = [
+    "t", "t_mut", "reshape:explicit", "reshape:infer-dividing", "reshape:infer-nondividing", "reshape:explicit-mismatch", "reshape:invalid-args",
+    "reshape_mut:explicit", "reshape_mut:infer-dividing", "reshape_mut:infer-nondividing", "reshape_mut:explicit-mismatch", "reshape_mut:invalid-args",
+    "hcat:matching", "hcat:mismatched", "vcat:matching", "vcat:mismatched", "hrepeat", "vrepeat",
+    "get_row:in-range", "get_row:out-of-range", "get_col:in-range", "get_col:out-of-range",
+    "apply_row:in-range", "apply_row:out-of-range", "apply_col:in-range", "apply_col:out-of-range",
+    "flat_idx:in-range", "flat_idx:out-of-range", "flat_idx_replace:in-range", "flat_idx_replace:out-of-range",
+    "index2:in-range", "index2:out-of-range", "index2_write:in-range", "index2_write:out-of-range",
+    "row_index:in-range", "row_index:out-of-range", "row_index_write:in-range", "row_index_write:out-of-range",
+    "diag:square", "diag:tall", "diag:wide", "to_vec.to_matrix",
+    "vec_reshape:explicit", "vec_reshape:infer-dividing", "vec_reshape:infer-nondividing", "vec_reshape:explicit-mismatch", "vec_reshape:invalid-args",
+    "new:explicit", "new:infer-dividing", "new:infer-nondividing", "new:explicit-mismatch", "new:invalid-args",
+    "row_to_col_major", "col_to_row_major", "accessors", "transpose(slice)", "program",
+    "eye", "zeros", "ones", "with_shape", "empty_n",
+];
+const OTHER_REGIMES: [&str; 33] = [
+    "diag_matrix", "diag(slice)", "toeplitz", "vandermonde", "design", "linspace:num=1", "linspace:num=2", "linspace:num>=3",
+    "arange:empty", "arange:frac∈[.05,.95]", "arange:near-integer", "rotation:X", "rotation:Y", "rotation:Z",
+    "is_square", "is_square(slice)", "is_matrix(slice)", "is_symmetric:positive", "is_symmetric:negative", "is_symmetric:non-square",
+    "is_upper_triangular:square", "is_upper_triangular:wide", "is_upper_triangular:tall", "is_lower_triangular:square", "is_design:positive", "is_design:negative",
+    "close_to:identical", "close_to:near", "close_to:far", "close_to:opposite-sign", "eq:identical", "eq:opposite-sign", "mat_eq:shape-mismatch",
+];
+
+pub fn run(cfg: &Cfg, rep: &mut Report) {
+    rep.rule = "random programs of 1..40 structural operations (30 kinds, ~60 regimes incl. the must-panic variants) over matrices that start at 1..8 x 1..8 with pairwise distinct entries, \
+                run in lock-step with a Vec<Vec<f64>> model (Miri smoke: 300 programs of 1..3 operations); constructors at sizes 1..64 with real start/stop/step and angles in +-4pi x 3 axes; \
+                predicates and comparisons on constructed positives/negatives. non-trivial program = at least 3 shape-changing operations; distinct by hash of (start shape, operation codes, intermediate shapes)"
+        .into();
+    rep.assume("concatenation / repetition is only applied while the result stays within 8 rows and 8 columns (reshape may produce any factorisation of at most 64 elements)");
+    rep.assume("zero-sized matrices are outside the quantifier (1..8 rows/columns, sizes 1..64): Matrix::zeros(0, n), hrepeat(0), linspace(a, b, 0) are not exercised");
+    rep.assume("Matrix::with_shape / Vector::empty_n return garbage by contract: only nrows, ncols and data.len() are inspected, the contents are never read");
+    rep.assume("predicates are decided on clear positives/negatives (asymmetry or deviation >= 1e-3 * scale); comparisons on pairs that are identical, within tol/10, beyond 10*tol, or of opposite sign with magnitudes >= 1e3 * tol");
+    rep.assume("arange: the exact ratio (stop-start)/step is evaluated in double-double; the point count is only pinned (= ceil) when its fractional part lies in [0.05, 0.95]");
+    let lean = cfg.miri();
+    let n_prog = cfg.pick(2000, 50000, 300);
+    // memcheck / ASan (native lite): enough constructor cases to reach every class
+    let n_ctor = if cfg.lite && !cfg.miri() { 120 } else { cfg.pick(600, 12000, 3) };
+    let maxn = if cfg.miri() { 5 } else { 64 };
+    if cfg.miri() {
+        // one case, one tally, one flush (every `Report` map operation costs ~10 ms under Miri)
+        par_cases(cfg, rep, 1, 1, |_i, rng, rep| {
+            let mut t = Tally::new(lean);
+            for _ in 0..n_prog {
+                let len = rng.usize(1, 3);
+                program(&mut t, rng, len);
+            }
+            for _ in 0..n_ctor {
+                constructors(&mut t, rng, maxn);
+                predicates(&mut t, rng, maxn);
+                comparisons(&mut t, rng, maxn);
+            }
+            t.flush(rep);
+        });
+    } else {
+        par_cases(cfg, rep, 1, n_prog, |_i, rng, rep| {
+            let mut t = Tally::new(lean);
+            let len = rng.usize(1, 40);
+            program(&mut t, rng, len);
+            t.flush(rep);
+        });
+        par_cases(cfg, rep, 2, n_ctor, |i, rng, rep| {
+            let mut t = Tally::new(lean);
+            // every third case stays at the program sizes (1..8), the rest goes up to 64
+            let m = if i % 3 == 0 { 8 } else { maxn };
+            constructors(&mut t, rng, m);
+            predicates(&mut t, rng, m.min(24));
+            comparisons(&mut t, rng, m);
+            t.flush(rep);
+        });
+    }
+    for r in PROGRAM_REGIMES.iter().chain(OTHER_REGIMES.iter()) {
+        if cfg.miri()
+            && (r.contains("invalid-args") || r.contains("mismatch") || r.contains("out-of-range") || r.contains("nondividing") || r.contains("triangular:") || r.contains("is_symmetric:non-square")
+                || ["arange:", "linspace:", "vec_reshape:", "new:", "diag:"].iter().any(|p| r.starts_with(p)))
+        {
+            continue; // the smoke run (about 600 operations, 3 constructor cases) cannot be sure to reach the rare classes
+        }
+        rep.require(r, 1);
+    }
 }
